@@ -16,9 +16,12 @@ import (
 	"os"
 	"os/exec"
 	"reflect"
+	"runtime"
 	"sort"
 	"strconv"
 	"strings"
+	"sync"
+	"sync/atomic"
 	"time"
 
 	"github.com/free5gc/chf/cdr/asn"
@@ -1045,6 +1048,9 @@ func BerChild(tname, params, file string) error {
 		"int": reflect.TypeOf(int64(0)), "enum": asn.EnumeratedType, "bool": reflect.TypeOf(false),
 		"octets": asn.OctetStringType, "utf8": asn.UTF8StringType, "bits": asn.BitStringType,
 	}
+	if tname == "@cold" {
+		return berCold(data)
+	}
 	t, ok := prims[tname]
 	if !ok {
 		t, ok = SchemaTypes[tname]
@@ -1062,6 +1068,60 @@ func BerChild(tname, params, file string) error {
 		res = "ok"
 	}
 	fmt.Println("RESULT " + res)
+	return nil
+}
+
+// berCold: a process that has decoded nothing yet decodes values of every schema type from many tasks at once (the
+// CHF's request handlers decode concurrently from the first request on).  data holds the seed.
+func berCold(data []byte) error {
+	seed, _ := strconv.ParseInt(strings.TrimSpace(string(data)), 10, 64)
+	rnd := rand.New(rand.NewSource(seed))
+	names := make([]string, 0, len(SchemaTypes))
+	for n := range SchemaTypes {
+		names = append(names, n)
+	}
+	sort.Strings(names)
+	type item struct {
+		t   reflect.Type
+		enc []byte
+	}
+	var items []item
+	for _, n := range names {
+		t := SchemaTypes[n]
+		ptr := reflect.New(t)
+		o := &fillOpt{rnd: rnd, present: "all", leaf: "small", maxDepth: 5, skipOpen: true}
+		o.fill(ptr.Elem(), 0)
+		if enc, err := asn.BerMarshalWithParams(ptr.Interface(), ""); err == nil { // (encoding only: the decoder stays cold)
+			items = append(items, item{t, enc})
+		}
+	}
+	tasks := 4 * runtime.GOMAXPROCS(0)
+	start := make(chan struct{})
+	var wg sync.WaitGroup
+	var panics int32
+	for g := 0; g < tasks; g++ {
+		wg.Add(1)
+		go func(g int) {
+			defer wg.Done()
+			defer func() {
+				if recover() != nil {
+					atomic.AddInt32(&panics, 1)
+				}
+			}()
+			<-start
+			for k := range items {
+				it := items[(k*7+g*13)%len(items)]
+				_ = asn.UnmarshalWithParams(it.enc, reflect.New(it.t).Interface(), "")
+			}
+		}(g)
+	}
+	close(start)
+	wg.Wait()
+	if panics > 0 {
+		fmt.Println("RESULT panic")
+		return nil
+	}
+	fmt.Println("RESULT ok")
 	return nil
 }
 
@@ -1118,6 +1178,43 @@ func mutations(valid []byte, rnd *rand.Rand) map[string][][]byte {
 		m := append([]byte{}, valid...)
 		m[rnd.Intn(n)] ^= byte(1 << uint(rnd.Intn(8)))
 		add("flipc", m)
+	}
+	// tag numbers beyond 64 bits that are congruent to the element's own tag modulo 2^64 (ten and eleven tag octets):
+	// the first two headers rewritten in the high-tag-number form of tag + k*2^64
+	for hi, h := range hdrs {
+		if hi >= 2 {
+			break
+		}
+		t, ok := ParseTLVHeader(valid, h[0])
+		if !ok {
+			continue
+		}
+		rest := valid[h[0]+1:]
+		if valid[h[0]]&0x1f == 0x1f { // already in the long form: skip its tag octets
+			i := 0
+			for i < len(rest) && rest[i]&0x80 != 0 {
+				i++
+			}
+			rest = rest[i+1:]
+		}
+		for _, k := range []uint64{1, 2, 63} {
+			for _, extra := range []int{0, 1} { // ten or eleven tag octets
+				id := []byte{valid[h[0]] | 0x1f}
+				for j := 0; j < extra; j++ {
+					id = append(id, 0x81)
+				}
+				id = append(id, 0x80|byte(k<<1)|byte(uint64(t.Tag)>>63))
+				for sh := 56; sh >= 0; sh -= 7 {
+					b := byte(uint64(t.Tag)>>uint(sh)) & 0x7f
+					if sh > 0 {
+						b |= 0x80
+					}
+					id = append(id, b)
+				}
+				m := append(append(append([]byte{}, valid[:h[0]]...), id...), rest...)
+				add("bigtag", m)
+			}
+		}
 	}
 	return out
 }
@@ -1251,14 +1348,23 @@ func RunBer(in, out string) error {
 					keys = append(keys, k)
 				}
 				sort.Strings(keys)
+				// the budget is dealt out over the classes in turn (each class in a seeded random order)
 				budget := c.N
 				for _, cls := range keys {
-					for _, m := range muts[cls] {
-						if budget <= 0 {
-							break
+					ms := muts[cls]
+					rnd.Shuffle(len(ms), func(i, j int) { ms[i], ms[j] = ms[j], ms[i] })
+				}
+				for round := 0; budget > 0; round++ {
+					any := false
+					for _, cls := range keys {
+						if round < len(muts[cls]) && budget > 0 {
+							any = true
+							budget--
+							r.decodeOnly(c, cls, muts[cls][round], t, c.Type, c.Params)
 						}
-						budget--
-						r.decodeOnly(c, cls, m, t, c.Type, c.Params)
+					}
+					if !any {
+						break
 					}
 				}
 			}
@@ -1331,6 +1437,11 @@ func RunBer(in, out string) error {
 						r.decodeChild(c, "deep:"+name, data, t, tn, c.Params)
 					}
 				}
+			}
+		case "cold":
+			// concurrent decoding in processes that have not decoded anything before (c.N fresh processes)
+			for i := 0; i < c.N; i++ {
+				r.decodeChild(c, fmt.Sprintf("cold:%d", i), []byte(fmt.Sprint(c.Seed+int64(i))), SchemaTypes["CHFRecord"], "@cold", "")
 			}
 		case "types":
 			names := make([]string, 0, len(SchemaTypes))
